@@ -9,9 +9,9 @@ open Fpy AbsFmt
 theorem ty_fp (dbl : Bool) (rm : HwRM) : (NativeCtx.fp dbl rm).ty = some (fpTy dbl) := by
   cases dbl <;> cases rm <;> decide
 
-theorem mem_sameSigs {ar : Nat} {nm : String} {cs : List NativeCtx} {s : Sig} (h : s ∈ sameSigs ar nm cs) :
+theorem mem_sameSigsBy {ar : Nat} {nm : MachTy → String} {cs : List NativeCtx} {s : Sig} (h : s ∈ sameSigsBy ar nm cs) :
     ∃ t, s.outCtx.ty = some t ∧ s.inTys = List.replicate ar t := by
-  unfold sameSigs at h
+  unfold sameSigsBy at h
   rw [List.mem_filterMap] at h
   obtain ⟨c, _, hc⟩ := h
   cases ht : c.ty with
@@ -22,12 +22,15 @@ theorem mem_sameSigs {ar : Nat} {nm : String} {cs : List NativeCtx} {s : Sig} (h
     subst hc
     exact ⟨t, ht, rfl⟩
 
+theorem mem_sameSigs {ar : Nat} {nm : String} {cs : List NativeCtx} {s : Sig} (h : s ∈ sameSigs ar nm cs) :
+    ∃ t, s.outCtx.ty = some t ∧ s.inTys = List.replicate ar t := mem_sameSigsBy h
+
 theorem mem_sigs {nd : Node} {s : Sig} (h : s ∈ sigs nd) :
     ∃ t, s.outCtx.ty = some t ∧ s.inTys = List.replicate nd.arity t := by
   cases nd <;> simp only [sigs, List.mem_append] at h
   all_goals first
     | exact mem_sameSigs h
-    | (rcases h with h | h <;> exact mem_sameSigs h)
+    | (rcases h with h | h <;> first | exact mem_sameSigs h | exact mem_sameSigsBy h)
 
 /-- what `_dispatch` guarantees about the signature it selects under a hardware context -/
 theorem dispatch_fp_shape (nd : Node) (tys : List MachTy) (dbl : Bool) (rm : HwRM) (s : Sig)
